@@ -122,7 +122,7 @@ def creation_worker(job):
             check_result(rec, got, ref, nullable=bool(dt and impl.is_nullable(dt)), values=(fn != "empty"))
         elif fn.endswith("_like"):
             shape = tuple(rng.choice([0, 1, 2, 3]) for _ in range(rng.randrange(0, 4)))
-            dt = rng.choice(dts)
+            dt = rng.choice([d for d in dts if not (fn == "ones_like" and d.endswith("utf8"))])
             x = impl.token_array(shape, dt)
             dt2 = rng.choice([None, None] + [d for d in dts if not d.endswith("utf8")])
             fill = None
